@@ -27,7 +27,7 @@ struct Peek {
     bool mutex_locked = false; int mutex_waiting = -1;
     bool stream_open = false;
     int session_flags = -1;
-    int free_id_intervals = -1; int lowest_free_id = -1;
+    int free_id_intervals = -1; int lowest_free_id = -1; int free_ids_total = -1;
     int channel_backlog = -1;
 };
 
